@@ -96,10 +96,12 @@ impl Property for C06 {
         let encs = encoders_for_all_kinds(sem);
         let mut orng = Rng::sub(run_seed, "oracle");
         let mut prng = Rng::sub(run_seed, "delivery");
-        let draw_backend = |rng: &mut Rng, prng: &mut Rng| match rng.weighted(&[5, 3, 2]) {
+        let draw_backend = |rng: &mut Rng, prng: &mut Rng| match rng.weighted(&[50, 30, 19, 1]) {
             0 => Backend::Sim,
             1 => Backend::Ext { plan: ReplyPlan::draw(prng), vary_plan: rng.bool() },
-            _ => Backend::Cadical,
+            2 => Backend::Cadical,
+            // 1 %: the real external-process path (ExternalSatSolver + exec_solver + fakesat on OS pipes)
+            _ => Backend::Process { seed: prng.next_u64() >> 40, comment_bytes: *prng.pick(&[0usize, 300, 70_000]) },
         };
         let fix = |b: Backend, mut o: OracleCfg| {
             if matches!(b, Backend::Ext { .. }) && o.policy == Policy::Cadical {
@@ -317,5 +319,6 @@ pub fn backend_name(b: Backend) -> &'static str {
         Backend::Sim => "simsat",
         Backend::Ext { .. } => "external-dimacs",
         Backend::Cadical => "cadical",
+        Backend::Process { .. } => "external-process",
     }
 }
